@@ -86,6 +86,8 @@ Inductive case :=
 | CCbT (m : meth) (c : tcbk) (recv : list elem) (o : obs)      (* throwing callback *)
 | CCbM (m : meth) (c : mcbk) (recv : list elem) (o : obs)      (* callback mutating the receiver *)
 | CSeq (recv : list elem) (steps : list (sstep * obs))
+(* a call whose argument list mixes plain arguments and ...spreads, as written *)
+| CMix (m : meth) (recv : list elem) (items : list arg) (o : obs)
 (* $a->m1(..)->m2(..) as script text; o = (result of the chain, $a afterwards) *)
 | CChain (recv : list elem) (s1 s2 : sstep) (o : obs)
 (* a call written with named arguments; pn = the parameter names and kinds of the real method
@@ -167,6 +169,7 @@ Definition check_call (m : meth) (recv args : list elem) (o : obs) : list nat :=
 Definition check_case (c : case) : list nat :=
   match c with
   | CCall m recv args o => check_call m recv args o
+  | CMix m recv items o => check_call m recv (flatten_args items) o
   | CNamed m pn recv pos named o =>
       (* the measured parameter kinds are the model's signature; a rejected binding is a catchable
          error that leaves the receiver alone; an accepted one is the positional call *)
